@@ -158,6 +158,10 @@ func runTear(c Case) Obs {
 
 	ctx, cancel := context.WithCancel(context.Background())
 	defer cancel()
+	entry := c.Phase == "entry"
+	if entry {
+		cancel() // the context is already cancelled when Execute is called
+	}
 	doneA := make(chan error, 1)
 	go func() { doneA <- e.c.Execute(ctx, procs, make(chan interface{}, 4)) }()
 
@@ -199,7 +203,7 @@ func runTear(c Case) Obs {
 			e.comm.Deliver(sid, comm.TssStartMsg, peers[1], sm)
 		}
 		waitFor(func() bool { return over() || started() })
-	} else if c.Outcome == "cancel" {
+	} else if c.Outcome == "cancel" && !entry {
 		// the wait loops are established before the cancellation strikes
 		mt := comm.TssStartMsg
 		if coord {
@@ -291,7 +295,9 @@ func runTear(c Case) Obs {
 		to.Note += "the second request was never decided; "
 	}
 	to.Final = classB()
-	if e.led.Count("Close", sid) == 0 {
+	if e.led.Count("Close", sid) == 0 && !(returnedA && !to.Parked) {
+		// (a first Execute that returned without its teardown ever reaching the gate has no teardown
+		// under way any more: whatever it closed, it has closed)
 		waitFor(func() bool { return e.led.Count("Close", sid) >= 1 })
 	}
 	evs := e.led.Snapshot()
